@@ -25,7 +25,7 @@
 
 extern void (*liberasurecode_verif_yield)(const char *point);
 extern int verif_held(void);
-extern int next_backend_desc;
+#include <dlfcn.h>
 
 #define MAXT 16
 static FILE *evf;
@@ -158,7 +158,7 @@ int main(int argc, char **argv)
         scn++;
         /* fresh library state */
         liberasurecode_verif_yield = NULL;
-        next_backend_desc = 0;
+        { int *nx = dlsym(RTLD_DEFAULT, "next_backend_desc"); if (nx) *nx = 0; }   /* by name: survives a rename */
         shared_desc = 0;
         if (pre) {
             struct ec_args a; memset(&a, 0, sizeof a); a.k = 4; a.m = 2; a.hd = 2; a.ct = CHKSUM_NONE;
